@@ -224,6 +224,10 @@ class CallMixin:
                     break
         if ty is not None:
             return [(st, self.read_field(st, base, attr, ty))]
+        d0 = self.reg.classes.get(cls) or self.reg.class_by_key.get(cls) if cls else None
+        if d0 is not None and d0.opaque:
+            # objects of the environment (transports, loops, pipes of other layers): method calls go to assumed contracts
+            return [(st, VFunc('ext', name='%s.%s' % (d0.short, attr), bound=base))]
         if cls is not None:
             cp = self.class_property(cls, attr)
             if cp is not None:
@@ -384,6 +388,9 @@ class CallMixin:
         if pc is not None and isinstance(pc, type) and issubclass(pc, BaseException):
             v = self.new_object(st, key)
             v.args = args
+            aty = self.reg.field_type(key, 'args')
+            if aty is not None:
+                self.write_field(st, v, 'args', aty, VTuple(list(args)))
             return [(st, v)]
         if pc is not None:
             import enum
@@ -606,13 +613,24 @@ class CallMixin:
         base = st.copy()
         n0 = len(base.pc)
         args = [a.some() if isinstance(a, VOpt) else a for a in args]
+        args = [VInt(a.t) if isinstance(a, VEnum) else a for a in args]
         save = self.cur_contract, self.collect_only
         self.spec_mode += 1
         try:
             res = self.inline(base, info, args, {}, node)
         finally:
             self.spec_mode -= 1
-        outs = [(z3.And(*s.pc[n0:]) if len(s.pc) > n0 else z3.BoolVal(True), v) for s, v in res if s.exc is None]
+        outs = []
+        for s, v in res:
+            if s.exc is not None:
+                continue
+            conds = []
+            for f in s.pc[n0:]:
+                if f.get_id() in s.fact_ids:
+                    st.fact(f)          # universally valid: export to the caller's state
+                else:
+                    conds.append(f)
+            outs.append((z3.And(*conds) if conds else z3.BoolVal(True), v))
         if not outs:
             self.unsupported(node, 'spec function %s has no normal path' % info.key)
         merged = outs[-1][1]
